@@ -4078,6 +4078,11 @@ class Wallet(object):
                             raise WalletError("Input value is zero for address %s. Import or update UTXO's first "
                                               "or import transaction as dictionary" % address)
 
+                output_n_int = output_n if isinstance(output_n, TYPE_INT) else int.from_bytes(output_n, 'big')
+                if [i for i in transaction.inputs
+                        if i.prev_txid == to_bytes(prev_txid) and i.output_n_int == output_n_int]:
+                    raise WalletError("Input %s:%d is specified more than once" %
+                                      (to_hexstring(prev_txid), output_n_int))
                 amount_total_input += value
                 inp_keys, key = self._objects_by_key_id(key_id)
                 transaction.add_input(prev_txid, output_n, keys=inp_keys, script_type=unlocking_script_type,
